@@ -208,6 +208,27 @@ def pattern_raw_data(repo: Repo, rep, P: str):
     if not found:
         rep.inconclusive(f"{P}.R2", construct, "", "no `data[line][track].raw_data = ...` store found in the setter",
                          f"{pat.file.rel}:{s.lineno}")
+    else:
+        # every cell of the image is applied: the store lies on every path through one iteration of the innermost loop
+        from ..cfg import CFG
+        inner = None
+        for n in ast.walk(s):
+            if isinstance(n, ast.For) and any(isinstance(x, ast.Assign) and any(isinstance(t, ast.Attribute) and t.attr == "raw_data" for t in x.targets)
+                                              for x in ast.walk(n)) and not any(isinstance(m, ast.For) and m is not n for m in ast.walk(n)):
+                inner = n
+        if inner is not None:
+            gcf = CFG(inner, loop_body=True)
+            stores = {n.id for n in gcf.nodes if n.kind == "stmt" and isinstance(n.ast, ast.Assign)
+                      and any(isinstance(t, ast.Attribute) and t.attr == "raw_data" for t in n.ast.targets)}
+            wo = gcf.reachable(avoid=stores, labels_excluded={"exc", "reraise", "nomatch"})
+            if gcf.exit in wo or gcf.break_exit in wo or gcf.ret_exit in wo:
+                skip = [norm(n.ast) for n in gcf.nodes if n.kind == "test"]
+                rep.violation(f"{P}.R2", construct, f"for {norm(inner.target)} in {norm(inner.iter)}: … (skips under {skip[:2]})",
+                              "some cells of the byte image are not applied to the pattern (a path through the cell loop skips the store): "
+                              "cells that already hold a note keep it, so image → pattern → image is not the identity",
+                              f"{pat.file.rel}:{inner.lineno}")
+            else:
+                rep.ok(f"{P}.R2", construct, "every cell of the image is stored", "store on every path through the cell loop")
     # --- getter: join(join(cell.raw_data for cell in line) for line in self.data)
     ret = None
     for st in stmts_of(g):
@@ -228,6 +249,15 @@ def pattern_raw_data(repo: Repo, rep, P: str):
                     cv = norm(ig.generators[0].target)
                     if norm(ig.elt) == f"{cv}.raw_data":
                         ok = True
+                    elif isinstance(ig.elt, ast.IfExp):
+                        verdict = _conditional_cell(repo, note, ig.elt, cv)
+                        if verdict is None:
+                            ok = True
+                        elif verdict.startswith("!"):
+                            rep.violation(f"{P}.R2", construct, norm(ig.elt), verdict[1:], f"{pat.file.rel}:{g.lineno}")
+                            ok = True     # reported; do not add an inconclusive on top
+                        else:
+                            detail = verdict
                     else:
                         detail = f"cell bytes are {norm(ig.elt)}"
                 else:
@@ -257,6 +287,43 @@ def pattern_raw_data(repo: Repo, rep, P: str):
     else:
         rep.violation(f"{P}.R2", f"{pat.file.rel}:Pattern.clear", src[:120],
                       "the cell array is not built as `lines` rows of `tracks` cells", f"{pat.file.rel}:{clear.lineno}")
+
+
+def _packed_fields(repo: Repo, note) -> List[str]:
+    g = note.getters.get("raw_data")
+    for n in walk_no_nested(g):
+        if isinstance(n, ast.Call) and norm(n.func) in ("pack", "struct.pack"):
+            return [attr_chain(a)[-1] for a in n.args[1:] if attr_chain(a)]
+    return []
+
+
+def _conditional_cell(repo: Repo, note, e: ast.IfExp, cv: str) -> Optional[str]:
+    """`CONST if cell.pred() else cell.raw_data`: None = sound, '!msg' = violation, other = unrecognised."""
+    test, a, b = e.test, e.body, e.orelse
+    neg = False
+    while isinstance(test, ast.UnaryOp) and isinstance(test.op, ast.Not):
+        test, neg = test.operand, not neg
+    const_branch, raw_branch = (b, a) if neg else (a, b)
+    if norm(raw_branch) != f"{cv}.raw_data":
+        return f"cell bytes are {norm(e)}"
+    try:
+        const = repo.fold(const_branch, ci=note, sf=repo.module("rv.pattern"))
+    except NotConst:
+        return f"substitute {norm(const_branch)} is not constant"
+    if not (isinstance(test, ast.Call) and isinstance(test.func, ast.Attribute) and norm(test.func.value) == cv and not test.args):
+        return f"predicate {norm(test)} not a method of the cell"
+    r = repo.lookup(note, test.func.attr)
+    if r is None or r[1] != "method":
+        return f"predicate {test.func.attr} not found"
+    read = {attr_chain(n)[1] for n in walk_no_nested(r[2]) if isinstance(n, ast.Attribute) and attr_chain(n) and attr_chain(n)[0] == "self" and len(attr_chain(n)) == 2}
+    fields = _packed_fields(repo, note)
+    missing = [f for f in fields if f not in read]
+    if missing:
+        return (f"!cells for which `{test.func.attr}()` holds are written as the constant {const!r}, but `{test.func.attr}` does not look at "
+                f"{missing}: a cell whose only non-zero field is {missing[0]} is saved as an empty cell")
+    if const != b"\0" * 8:
+        return f"!substitute constant {const!r} is not the 8-byte encoding of a cell with all fields 0"
+    return None
 
 
 # ------------------------------------------------------------------------------------- R3
@@ -315,11 +382,14 @@ def midi_in_widths(repo: Repo) -> Dict[str, int]:
     return {"midi_in_always": lens[0][1], "midi_in_channel": lens[1][1]}
 
 
-def pack_pairs(repo: Repo, rep, P: str, rule: str):
+def pack_pairs(repo: Repo, rep, P: str, rule: str, which=("SMII", "SFGS")):
     mod = repo.cls("Module", module="rv.modules.module")
     mreader = repo.cls("ModuleReader", module="rv.readers.module")
-    rep.func("rv.modules.module.Module.iff_chunks[SMII] / rv.readers.module.ModuleReader.process_SMII")
-    packed.check_pack_pair(repo, rep, P, rule, mod, "iff_chunks", b"SMII", mreader, midi_in_widths(repo))
+    if "SMII" in which:
+        rep.func("rv.modules.module.Module.iff_chunks[SMII] / rv.readers.module.ModuleReader.process_SMII")
+        packed.check_pack_pair(repo, rep, P, rule, mod, "iff_chunks", b"SMII", mreader, midi_in_widths(repo))
+    if "SFGS" not in which:
+        return
     proj = repo.cls("Project", module="rv.project")
     sreader = repo.cls("SunVoxReader", module="rv.readers.sunvox")
     w = sync_width(repo)
